@@ -29,7 +29,7 @@ class C17(Spec):
         out = []
         names = [("md013", "md013", True), ("md013", "line-length", True), ("md002", "md002", False), ("md002", "first-heading-h1", False), ("md002", "first-header-h1", False)]
         if tier != "quick":
-            names += [("md047", "single-trailing-newline", True), ("pml100", "pml100", False), ("md003", "heading-style", True), ("md003", "header-style", True)]
+            names += [("md012", "no-multiple-blanks", True), ("pml100", "pml100", False), ("md003", "heading-style", True), ("md003", "header-style", True)]
         for rule, name, default in names:
             out.append(self.job("enabled", {"rule": rule, "name": name, "default": default}))
         for item in ITEMS:
